@@ -44,13 +44,15 @@ META = dict(
               "ahead clause) and with none (determinism clause, compared against max_concurrent = 50 on the same "
               "path: 2-safety by self-composition); fixed cross-pair order script (market, limit, stop orders, a cancel, "
               "a follow-up order from an order event, an order from a trading signal)",
-        thorough="3 pairs x 3 bars, max_concurrent 1..5"),
+        thorough="adds 2 pairs x 3 bars, 3 pairs x 2 bars with max_concurrent 1..6, the tight-funds job with 3 pairs, "
+                 "repeated runs with 4 competing orders"),
     stubs=["logging disabled", "uuid.uuid4 deterministic", "concrete OHLCV (scheduling is the subject)"],
     assumptions=["per-pair bar times strictly increasing", "handlers of the determinism clause do not suspend (premise)"],
     outside=["'for every hash seed': PYTHONHASHSEED is a process start-up parameter, not a solver variable; the "
              "workers run with PYTHONHASHSEED=VERIF_SEED so that successive runs sample it, no verdict is claimed",
              "more pairs / bars than stated"],
-    required_covers=["an order was filled", "run completed", "the handler pool was saturated"],
+    required_covers=["an order was filled", "run completed", "the handler pool was saturated",
+                     "an auto-repay order repaid one of two equal loans"],
 )
 
 
@@ -245,26 +247,86 @@ def scenario(ctx, npairs=3, nbars=2, max_mc=4, clause="lookahead", merged=False,
         ctx.cover("the handler pool was saturated")
 
 
+def _id_stream(ctx, stream):
+    """uuid.uuid4 for one run.  Stream 0 yields ids in ascending order, 1 in descending order, 2 and 3 hash-scattered:
+    two runs of the same backtest differ in nothing but these values."""
+    import hashlib
+    import uuid
+    n = [0]
+
+    def uuid4():
+        n[0] += 1
+        if stream == 0:
+            return uuid.UUID(int=(0xA << 124) | n[0])
+        if stream == 1:
+            return uuid.UUID(int=(0xA << 124) | (2 ** 64 - n[0]))
+        return uuid.UUID(bytes=hashlib.sha256(b"%d:%d" % (stream, n[0])).digest()[:16])
+    ctx.patch(uuid, "uuid4", uuid4, both_modes=True)
+
+
+def repeated_runs_loans(ctx):
+    """Determinism across repeated runs where the random ids are LOAN ids: two equally sized loans taken at different
+    times (so their interest differs), the borrowed coins sold, one coin bought back by an auto-repay order: which loan
+    is repaid must not depend on the ids."""
+    from basana.backtesting.lending import margin
+    stream_b = 1 + ctx.choice("id_stream_of_second_run", 3)
+    pair = PAIRS[0]
+
+    def one_run(stream):
+        _id_stream(ctx, stream)
+        d = bs.backtesting_dispatcher()
+        cond = margin.MarginLoanConditions(interest_symbol="USD", interest_percentage=Decimal("7"),
+                                           interest_period=datetime.timedelta(days=1), min_interest=Decimal(0),
+                                           margin_requirement=Decimal("0.1"))
+        e = bex.Exchange(d, {"USD": Decimal(100000)}, liquidity_strategy_factory=liquidity.InfiniteLiquidity,
+                         default_pair_info=PairInfo(0, 2),
+                         lending_strategy=margin.MarginLoans("USD", default_conditions=cond))
+        e.set_symbol_precision("USD", 2)
+        e.set_symbol_precision("AAA", 0)
+        now = [T0]
+
+        def feed(price):
+            now[0] = now[0] + datetime.timedelta(days=1)
+            d._last_dt = now[0]
+            p_ = Decimal(price)
+            xrun(e._on_bar_event(bar.BarEvent(now[0], bar.Bar(now[0] - datetime.timedelta(days=1), pair, p_, p_, p_, p_,
+                                                              Decimal(1000)))))
+        d._last_dt = T0
+        feed(100)
+        l1 = xrun(e.create_loan("AAA", Decimal(1)))
+        feed(100)
+        l2 = xrun(e.create_loan("AAA", Decimal(1)))
+        xrun(e.create_market_order(SELL, pair, Decimal(2)))
+        feed(100)
+        xrun(e.create_market_order(BUY, pair, Decimal(1), auto_repay=True))
+        feed(100)
+        loans = [xrun(e.get_loan(l.id)) for l in (l1, l2)]
+        out = [(i, l.is_open, l.paid_interest.get("USD", Decimal(0))) for i, l in enumerate(loans)]
+        bal = {s: (v.available, v.hold, v.borrowed) for s, v in xrun(e.get_balances()).items()}
+        return out, bal
+    a = one_run(0)
+    b = one_run(stream_b)
+    if sum(1 for x in a[0] if not x[1]) == 1:
+        ctx.cover("an auto-repay order repaid one of two equal loans")
+    ctx.prove(a[0] == b[0], "C03 repeated runs repay the same loans (runs differ in the random ids only)",
+              info=(a[0], b[0]))
+    ctx.prove(a[1] == b[1], "C03 repeated runs give identical final balances (runs differ in the random ids only)",
+              info=(a[1], b[1]))
+    ctx.cover("run completed")
+
+
 def repeated_runs(ctx, norders=3):
     """Determinism across repeated runs, exchange level.  What differs between two runs of one backtest is the outcome
     of uuid.uuid4() (the order ids): run A and run B get different id streams (B's is a solver choice).  The open-order
     container's traversal counter is symbolic, so 'however long the backtest ran before' is covered (periodic
     re-indexing included).  Orders compete for one bar's limited liquidity, so the processing order shows in the fills."""
-    import hashlib
-    import uuid
-
     stream_b = 1 + ctx.choice("id_stream_of_second_run", 3)
     counter0 = ctx.int("reindex_counter", 0, 10 ** 6)
     ntrav = 1 + ctx.choice("traversals_before_the_bar", 2)
     pair = PAIRS[0]
 
     def one_run(stream):
-        n = [0]
-
-        def uuid4():
-            n[0] += 1
-            return uuid.UUID(bytes=hashlib.sha256(b"%d:%d" % (stream, n[0])).digest()[:16])
-        ctx.patch(uuid, "uuid4", uuid4, both_modes=True)
+        _id_stream(ctx, stream)
         d = bs.backtesting_dispatcher()
         e = bex.Exchange(d, {"USD": Decimal(100000), "AAA": Decimal(100)},
                          liquidity_strategy_factory=liquidity.VolumeShareImpact, default_pair_info=PairInfo(0, 2))
@@ -323,11 +385,15 @@ def jobs(tier):
                       **big))
     js.append(Job("repeated runs, 3 competing orders, any traversal count", "repeated_runs", dict(norders=3),
                   validate_every=5, sample_every=10))
+    js.append(Job("repeated runs, two equal loans and one auto-repay order", "repeated_runs_loans", validate_every=1,
+                  sample_every=1))
     if tier == "thorough":
         js.append(Job("repeated runs, 4 competing orders, any traversal count", "repeated_runs", dict(norders=4),
                       validate_every=5, sample_every=10))
-        js.append(Job("look-ahead 3 pairs x 3 bars", "scenario", dict(npairs=3, nbars=3, max_mc=5, clause="lookahead"),
-                      **dict(big, split=600)))
-        js.append(Job("determinism 3 pairs x 3 bars", "scenario",
-                      dict(npairs=3, nbars=3, max_mc=5, clause="determinism"), **dict(big, split=600)))
+        for clause in ("lookahead", "determinism"):
+            js.append(Job("%s 2 pairs x 3 bars" % ("look-ahead" if clause == "lookahead" else clause), "scenario",
+                          dict(npairs=2, nbars=3, max_mc=4, clause=clause), **dict(big, split=600)))
+            js.append(Job("%s 3 pairs x 2 bars, max_concurrent up to 6" %
+                          ("look-ahead" if clause == "lookahead" else clause), "scenario",
+                          dict(npairs=3, nbars=2, max_mc=6, clause=clause), **dict(big, split=600)))
     return js
